@@ -33,7 +33,7 @@ pub const C13: Check = Check {
     ],
     shards: |_| 16,
     watchdog: |t| Duration::from_secs(t.pick(300, 3600)),
-    budget: |t| Duration::from_secs(t.pick(30, 600)),
+    budget: |t| Duration::from_secs(t.pick(30, 300)),
     run: run_c13,
     crash_is_violation: false,
     finish: None,
@@ -241,7 +241,7 @@ pub const C14: Check = Check {
     assumptions: &["'at least one' in the statement is read as bound max(history-size, 1)"],
     shards: |_| 16,
     watchdog: |t| Duration::from_secs(t.pick(300, 3600)),
-    budget: |t| Duration::from_secs(t.pick(30, 600)),
+    budget: |t| Duration::from_secs(t.pick(30, 300)),
     run: run_c14,
     crash_is_violation: false,
     finish: None,
